@@ -4,6 +4,11 @@
 #include "AIToolbox/Factored/Bandit/Types.hpp"
 #include <AIToolbox/Factored/Utils/GenericVariableElimination.hpp>
 
+#ifdef AITOOLBOX_VERIF
+#include <functional>
+#define AITOOLBOX_VERIF_UCVE_BOUNDS 1
+#endif
+
 namespace AIToolbox::Factored::Bandit {
     /**
      * @brief This class represents the UCVE process.
@@ -85,6 +90,12 @@ namespace AIToolbox::Factored::Bandit {
              * @return The best action, randomly taken if multiple actions are eligible.
              */
             Result operator()(const Action & A, const double logtA, GVE::Graph & graph);
+
+#ifdef AITOOLBOX_VERIF
+            /// Verification hook: called at the start of every agent removal with
+            /// the variance bounds (x_l, x_u) that the pruning of that removal uses.
+            static inline std::function<void(size_t agent, double x_l, double x_u)> verifBoundsObserver;
+#endif
     };
 }
 
